@@ -46,6 +46,9 @@ type engine struct {
 	kidMu  sync.Mutex
 	kidIDs map[*pipeline.Event]string
 
+	// resumed sources: saved offsets per stream (read-only after generate)
+	saved map[uint64]map[string]int64
+
 	// pool monitor (C05)
 	pmu         sync.Mutex
 	outstanding map[*pipeline.Event]int64
@@ -54,6 +57,7 @@ type engine struct {
 	poolViol    []Viol
 	sizeClasses map[int]bool
 	waitersSeen int64
+	refusedByInput int64
 }
 
 func (e *engine) idByOffset(src uint64, off int64) string {
@@ -186,7 +190,11 @@ func (e *engine) generate() {
 				g.Kids = 1 + rng.Intn(4)
 				var arr []any
 				for k := 0; k < g.Kids; k++ {
-					arr = append(arr, map[string]any{"id": fmt.Sprintf("%s.c%d", g.ID, k), "pid": g.ID, "op": pick(rng, kidOps), "msg": "N:kid;"})
+					kid := map[string]any{"id": fmt.Sprintf("%s.c%d", g.ID, k), "pid": g.ID, "op": pick(rng, kidOps), "msg": "N:kid;"}
+					if e.cs.NestedSplit && rng.Intn(2) == 0 {
+						kid["arr"] = []any{map[string]any{"id": fmt.Sprintf("%s.c%d.d0", g.ID, k), "pid": g.ID, "op": "pass", "msg": "N:grandkid;"}}
+					}
+					arr = append(arr, kid)
 				}
 				m["arr"] = arr
 			}
@@ -203,6 +211,23 @@ func (e *engine) generate() {
 			g.Off = off
 			g.Line = b
 			e.gen[s] = append(e.gen[s], g)
+		}
+	}
+	e.saved = map[uint64]map[string]int64{}
+	for s := range e.gen {
+		if rng.Intn(100) >= e.cs.ResumePct || len(e.gen[s]) < 4 {
+			continue
+		}
+		m := map[string]int64{}
+		// every stream gets the offset of some event of the first half as "committed"
+		for i := 0; i < len(e.gen[s])/2; i++ {
+			g := &e.gen[s][i]
+			if rng.Intn(3) == 0 {
+				m[streamName(g.Stream)] = g.Off
+			}
+		}
+		if len(m) > 0 {
+			e.saved[uint64(s+1)] = m
 		}
 	}
 	e.bySrcOff = map[[2]uint64]string{}
@@ -390,7 +415,13 @@ func RunCase(cs Case, trace func(any)) Result {
 				next[s]++
 				left--
 				rec.add(Rec{K: "in.call", ID: g.ID, Src: g.Src, Off: g.Off, Stream: streamName(g.Stream)})
-				seq := eng.ctl.In(pipeline.SourceID(g.Src), fmt.Sprintf("src%d", g.Src), pipeline.NewOffsets(g.Off, nil), g.Line, false, nil)
+				var so pipeline.SliceMap
+				if m := eng.saved[g.Src]; m != nil {
+					for k, v := range m {
+						so.Set(pipeline.StreamName(k), v)
+					}
+				}
+				seq := eng.ctl.In(pipeline.SourceID(g.Src), fmt.Sprintf("src%d", g.Src), pipeline.NewOffsets(g.Off, so), g.Line, false, nil)
 				rec.add(Rec{K: "in.ret", ID: g.ID, Src: g.Src, Off: g.Off, Seq: seq})
 				n++
 				if (cs.PauseEvery > 0 && n%cs.PauseEvery == 0) || g.Pause {
@@ -594,6 +625,7 @@ func RunCase(cs Case, trace func(any)) Result {
 	res.Stats["stick"] = atomic.LoadInt64(&hc.stick)
 	res.Stats["timeouts_injected"] = atomic.LoadInt64(&hc.unblock)
 	res.Stats["pool_waiters_seen"] = atomic.LoadInt64(&eng.waitersSeen)
+	res.Stats["refused_by_input"] = atomic.LoadInt64(&eng.refusedByInput)
 	res.Stats["pool_max_outstanding"] = int64(eng.maxOut)
 	res.Stats["pool_gets"] = eng.gets
 	res.Stats["pool_size_classes"] = int64(len(eng.sizeClasses))
